@@ -265,7 +265,11 @@ func (in *Interp) callFn(caller *Frame, fn *ssa.Function, args []Value, env []Va
 		name = fn.Origin().String()
 	}
 	if h, ok := in.eng.replace[name]; ok {
-		return in.callFn(caller, h, args, nil, site)
+		// a replacement may wrap the original: a call from the replacement
+		// itself reaches the real function
+		if caller == nil || caller.fn != h {
+			return in.callFn(caller, h, args, nil, site)
+		}
 	}
 	if intr, ok := intrinsics[name]; ok {
 		if r, handled := intr(in, caller, fn, args); handled {
